@@ -43,6 +43,8 @@ REPAIR = ["greedy_insertion", "regret_insertion", "sync_aware_insertion"]
 def gen_instance(rng, big=False):
     n = rng.randrange(1, 12 if big else 10)
     nv = rng.randrange(1, 5)
+    if rng.random() < 0.04:
+        n, nv = rng.randrange(15, 31), rng.randrange(3, 8)  # a few dozen customers: long routes, many multi-vehicle customers
     if rng.random() < 0.03:  # boundary sizes: no customer at all / no vehicle at all
         n, nv = rng.choice([(0, nv), (n, 0), (0, 0)])
     multi_p = rng.choice([0.0, 0.2, 0.4, 0.8])
